@@ -370,3 +370,29 @@ def bufferview_args(call_node):
             if len(args) == 2:
                 return [show(_sc(strip_wrappers(a))).replace(" ", "") for a in args]
     return None
+
+
+def require_names(f, names, what=None):
+    """A rule that identifies its constructs through local variable / parameter names can only decide while those names
+    exist.  After a rename the rule must answer 'analysis broken' (exit 2) — not a violation (it would be a false alarm on
+    a behaviour-preserving edit) and not a pass.  Deleting a *check* on a variable keeps the name and stays a violation."""
+    have = set()
+    for p in f.params:
+        if p.get("n"):
+            have.add(p["n"])
+    for n in f.nodes.values():
+        if n.get("k") == "var":
+            have.add(n["n"])
+        elif n.get("k") == "decl":
+            for v in n.get("vars", []):
+                have.add(v["n"])
+        elif n.get("k") == "member":
+            have.add(last(n.get("n", "")).split("::")[-1])
+    for (ln, lf) in getattr(f, "lambdas", []) or []:
+        for n in lf.nodes.values():
+            if n.get("k") == "var":
+                have.add(n["n"])
+    missing = [x for x in names if x not in have]
+    if missing:
+        raise AnalysisBroken("%s: the rule identifies its constructs through the local names %s, which no longer exist in %s — "
+                             "re-anchor the rule (a rename is not a violation)" % (what or short(f.name), missing, short(f.name)))
